@@ -408,6 +408,56 @@ func runC15(w *World, r *Report) {
 		r.ok("make-size-not-negative", "none", "-", "no slice is made with a subtracted size in the request-handling packages")
 	}
 
+	// no request ends the process through the fatal logger (in the node binary Fatal panics on a goroutine of its own:
+	// no interceptor could contain it)
+	r.rule("no-fatal-on-request-paths", "Logger.Fatal is not called in any function reachable from an RPC handler (static calls, function literals, go statements, and every repo implementation of an interface method that is invoked); fatal exits belong to start-up and to the background loops", 1)
+	{
+		reach := map[*ssa.Function]bool{}
+		var visit func(fn *ssa.Function)
+		visit = func(fn *ssa.Function) {
+			if fn == nil || reach[fn] || !isRepoFunc(fn) || len(fn.Blocks) == 0 {
+				return
+			}
+			reach[fn] = true
+			for _, a := range fn.AnonFuncs {
+				visit(a)
+			}
+			instrsOf(fn, func(in ssa.Instruction) {
+				c, ok := in.(ssa.CallInstruction)
+				if !ok {
+					return
+				}
+				if cal := c.Common().StaticCallee(); cal != nil {
+					visit(cal)
+					return
+				}
+				if c.Common().IsInvoke() {
+					for _, impl := range repoImplementations(w, c.Common().Value.Type(), c.Common().Method) {
+						visit(impl)
+					}
+				}
+			})
+		}
+		for _, h := range handlerFns {
+			visit(h)
+		}
+		bad := ""
+		for fn := range reach {
+			instrsOf(fn, func(in ssa.Instruction) {
+				c, ok := in.(ssa.CallInstruction)
+				if !ok {
+					return
+				}
+				n := calleeName(c)
+				if strings.HasSuffix(n, "logger.Logger).Fatal") || strings.HasSuffix(n, "logging.Helper).Fatal") {
+					bad += fmt.Sprintf(" %s calls Fatal at %s;", shortFn(fn), lineOf(w, c))
+				}
+			})
+		}
+		r.Extra["functions_reachable_from_handlers"] = len(reach)
+		r.check(bad == "" && len(reach) > len(handlerFns), "no-fatal-on-request-paths", "handlers", "-", fmt.Sprintf("no fatal exit among the %d functions a request can reach", len(reach)), bad)
+	}
+
 	// shared tables are only touched under their lock (an unsynchronised map access aborts the process)
 	tablesUnderLock(w, r, "shared-table-under-lock")
 
@@ -641,4 +691,42 @@ func mapResultMayBeNil(w *World, c *ssa.Call, idx, depth int, seen map[ssa.Value
 		}
 	}
 	return ""
+}
+
+
+// repoImplementations: the repo functions an interface method call can dispatch to (every repo type whose method set
+// satisfies the interface; the wiring in cmd/ is not needed).
+func repoImplementations(w *World, it types.Type, m *types.Func) []*ssa.Function {
+	iface, ok := it.Underlying().(*types.Interface)
+	if !ok || m == nil {
+		return nil
+	}
+	var out []*ssa.Function
+	for _, p := range w.Prog.AllPackages() {
+		if p.Pkg == nil || !strings.HasPrefix(p.Pkg.Path(), modPath+"/") {
+			continue
+		}
+		for _, mem := range p.Members {
+			tn, ok := mem.(*ssa.Type)
+			if !ok {
+				continue
+			}
+			for _, t := range []types.Type{tn.Type(), types.NewPointer(tn.Type())} {
+				if _, isIface := tn.Type().Underlying().(*types.Interface); isIface {
+					continue
+				}
+				if !types.Implements(t, iface) {
+					continue
+				}
+				sel := w.Prog.MethodSets.MethodSet(t).Lookup(m.Pkg(), m.Name())
+				if sel == nil {
+					continue
+				}
+				if f := w.Prog.MethodValue(sel); f != nil {
+					out = append(out, f)
+				}
+			}
+		}
+	}
+	return out
 }
